@@ -88,6 +88,29 @@ pub fn run_history(inputs: &[Vec<u8>], cfg: &ReaderCfg, opts: &OptSpec, st: Opti
     Ok(())
 }
 
+/// seed corpus for fz_bytes: generated histories (3 config bytes + input) and a few literal documents
+pub fn fuzz_seeds(seed: u64) -> Vec<Vec<u8>> {
+    let mut out: Vec<Vec<u8>> = Vec::new();
+    for t in crate::runner::gen_tapes(&C07, seed ^ 0xf22, 300) {
+        let (case, _, _) = decode(&t);
+        for (i, inp) in case.inputs.iter().enumerate() {
+            let mut v = vec![t.c.first().copied().unwrap_or(0), t.c.get(1).copied().unwrap_or(0), i as u8];
+            v.extend_from_slice(inp);
+            if v.len() <= 4096 {
+                out.push(v);
+            }
+        }
+    }
+    for lit in ["<a b=\"c\">d</a>", "<a><a></a></a>", "<a><b><c/></b><b/></a>", "<?xml version=\"1.0\"?><!DOCTYPE a><a xmlns:x=\"u\" x:y=\"1\"><x:b>t</x:b><![CDATA[z]]></a>"] {
+        for h in [[0u8, 0, 0], [3, 7, 1], [2, 2, 0]] {
+            let mut v = h.to_vec();
+            v.extend_from_slice(lit.as_bytes());
+            out.push(v);
+        }
+    }
+    out
+}
+
 impl Property for C07 {
     fn id(&self) -> &'static str {
         "C07"
@@ -138,7 +161,12 @@ impl Property for C07 {
             }))
         })
     }
-    fn extra(&self, _tier: Tier, _seed: u64, st: &mut Stats) -> Result<(), (Failure, Value)> {
+    fn extra(&self, tier: Tier, seed: u64, st: &mut Stats) -> Result<(), (Failure, Value)> {
+        if tier == Tier::Thorough {
+            let runs = std::env::var("XSGV_FUZZ_RUNS").ok().and_then(|s| s.parse().ok()).unwrap_or(1_000_000u64);
+            let c = crate::fuzzrun::Campaign { target: "fz_bytes", runs_per_worker: runs, workers: 16, seed, max_len: 4096, seeds: fuzz_seeds(seed) };
+            crate::fuzzrun::campaign_for("C07", &c, st)?;
+        }
         // regression corpus: every file through every chunk size and flag combination
         let dir = crate::runner::verif_root().join("corpus").join("bytes");
         let mut files: Vec<std::path::PathBuf> = match std::fs::read_dir(&dir) {
@@ -170,6 +198,17 @@ impl Property for C07 {
         Ok(())
     }
     fn replay_custom(&self, payload: &Value) -> Result<(), Failure> {
+        if payload["fuzz_target"].is_string() {
+            let input = crate::runner::unhex(payload["input_hex"].as_str().unwrap_or(""));
+            crate::crashguard::begin_case(&input, &[], &[]);
+            // only C07's part of the target: the C08 oracle is replayed under C08
+            let (cfg, opts, twice, body) = crate::fuzzglue::decode_bytes_input(&input);
+            if nesting_depth(body, cfg.expand_empty, cfg.check_end_names) > MAX_DEPTH || nesting_depth(body, false, true) > MAX_DEPTH {
+                return Ok(());
+            }
+            let inputs: Vec<Vec<u8>> = if twice { vec![body.to_vec(), body.to_vec()] } else { vec![body.to_vec()] };
+            return run_history(&inputs, &cfg, &opts, None).map_err(Failure::new);
+        }
         let f = payload["corpus_file"].as_str().unwrap_or("");
         let data = std::fs::read(f).map_err(|e| Failure::new(format!("cannot read {}: {}", f, e)).with_signature("infrastructure"))?;
         let opts = OptSpec { prefix: "@".into(), text_id: "$text".into(), derive: "Serialize, Deserialize".into(), by_name: false };
